@@ -262,6 +262,9 @@ theorem nnf_sem (c : Cond) (hok : c.ok = true) (neg : Bool) (f : Flow) :
   | ip s c v =>
     simp only [Cond.ok, Bool.and_eq_true, Bool.or_eq_true, beq_iff_eq] at hok
     cases neg <;> rcases hok.1 with h | h <;> subst h <;> simp [nnf, sem, Cmp.negate, bne]
+  | net s c v n =>
+    simp only [Cond.ok, Bool.and_eq_true, Bool.or_eq_true, beq_iff_eq] at hok
+    cases neg <;> rcases hok.1.1 with h | h <;> subst h <;> simp [nnf, sem, Cmp.negate]
   | num p c v => cases neg <;> simp [nnf, sem, negate_eval]
   | not a ih =>
     simp only [Cond.ok] at hok
@@ -289,6 +292,13 @@ theorem cmpVal_sem (c : Cond) (fl : Flags) (h : (condFlags c).le fl) (f : Flow) 
     sem c (cmpVal fl f) = sem c f := by
   induction c with
   | ip s c v =>
+    obtain ⟨h1, h2, _, _⟩ := h
+    cases s
+    · have : fl.dip = true := h2 (by simp [condFlags])
+      simp [sem, cmpVal, this]
+    · have : fl.sip = true := h1 (by simp [condFlags])
+      simp [sem, cmpVal, this]
+  | net s c v n =>
     obtain ⟨h1, h2, _, _⟩ := h
     cases s
     · have : fl.dip = true := h2 (by simp [condFlags])
@@ -327,6 +337,15 @@ theorem limit_sound (c : Cond) (f : Flow) (hf : flowOk f = true) (hs : sem c f =
       simp only [sem, beq_iff_eq] at hs
       simp only [ne_eq, not_true_eq_false, if_false, Flow.isV4]
       cases s <;> simp only [Bool.false_eq_true, if_false, if_true] at hs <;> subst hs <;>
+        constructor <;> intro h <;> split at h <;> simp_all
+    · simp [hc]
+  | net s c v n =>
+    simp only [limit, leafVersion, IPVersionNone, IPVersionV4, IPVersionV6]
+    by_cases hc : c = .eq
+    · subst hc
+      simp only [sem, inNetHex, Bool.and_eq_true, beq_iff_eq] at hs
+      simp only [ne_eq, not_true_eq_false, if_false, Flow.isV4]
+      cases s <;> simp only [Bool.false_eq_true, if_false, if_true] at hs <;>
         constructor <;> intro h <;> split at h <;> simp_all
     · simp [hc]
   | num p c v => simp [limit, IPVersionNone, IPVersionV4, IPVersionV6]
